@@ -72,10 +72,10 @@ def regen_inputs(ctx):
     ctx.ob(R, 'execute_file|same-path-read-and-recorded', ok, ef.node,
            'the path recorded differs from the file that is read')
     pp = F.fn('bfg9000.builtins.builtin:StackContext.push_path')
-    ys = [n for n in walk_no_nested(pp.node) if isinstance(n, ast.Yield)]
-    ok = bool(ys) and all(F.before(
-        pp, lambda e: e.name == 'append' and has(e.recv(), 'seen_paths') and
-        param_of(e.arg(0), 'path'), y) for y in ys)
+    cm = F.context_manager(pp)
+    ok = cm is not None and any(
+        e.name == 'append' and has(e.recv(), 'seen_paths') and
+        param_of(e.arg(0), 'path') for e in cm['enter'])
     ctx.ob(R, 'StackContext.push_path|records-seen_paths', ok, pp.node,
            'push_path does not record every pushed path in seen_paths '
            'before the script runs')
@@ -170,10 +170,10 @@ def _find_dirs_update(F, fn):
     """(update effects on build['find_dirs'], alloc atoms handed to
     _find_files as seen_dirs)."""
     ups = [e for e in F.effects(fn, lambda e: e.name in (
-        'update', 'add', 'extend'), depth=1)
+        'update', 'add', 'extend'), depth=2)
         if has(e.recv(), "['find_dirs']")]
     walked = set()
-    for e in F.calls_to(fn, '_find_files', depth=1):
+    for e in F.calls_to(fn, '_find_files', depth=2):
         walked |= _allocs(e.arg(2, kw='seen_dirs'))
     return ups, walked
 
@@ -479,6 +479,7 @@ def result_lattice(ctx):
     # dirs.remove()/pop() -- the recorded set (or the direct mutation) must
     # depend on `match == exclude_recursive` and on nothing else
     dels, recorded, direct_mut, kept = [], set(), [], set()
+    comp_tests = []
     for g in F.reach(ff, 2):
         if not g.module.name.endswith('builtins.find'):
             continue
@@ -497,6 +498,7 @@ def result_lattice(ctx):
                         comp = True
                         for t in c.ifs:
                             recorded |= _allocs(F.atoms(t, g))
+                            comp_tests.append((t, _allocs(F.atoms(t, g))))
                 if not comp:
                     # dirs[:] = <list of the entries to keep>
                     kept |= {a for a in _allocs(F.atoms(n.value, g))
@@ -507,8 +509,36 @@ def result_lattice(ctx):
     aps = [e for e in F.effects(ff, lambda e: e.name in ('append', 'add'),
                                 depth=2)
            if _allocs(e.recv()) & recorded] + direct_mut
+    def flag_form(e):
+        """`flags.append(match != exclude_recursive)` for every entry, the
+        list then filtered by the flag (`if keep` / `if not prune`)."""
+        a = e.call.args[0] if len(e.call.args) == 1 else None
+        if not (isinstance(a, ast.Compare) and len(a.ops) == 1 and
+                isinstance(a.ops[0], (ast.Eq, ast.NotEq))):
+            return False
+        l, r_ = F.atoms(a.left, e.fn, e.bind), F.atoms(
+            a.comparators[0], e.fn, e.bind)
+        if not (has(l, 'FindResult', 'exclude_recursive') and has_call(
+                r_, 'match') or has(r_, 'FindResult', 'exclude_recursive')
+                and has_call(l, 'match')):
+            return False
+        if F.guards(e.call, e.fn):
+            return False
+        keep = isinstance(a.ops[0], ast.NotEq)
+        tests = [t for t, al in comp_tests if al & _allocs(e.recv())]
+        if not tests:
+            return False
+        for t in tests:
+            neg = False
+            while isinstance(t, ast.UnaryOp) and isinstance(t.op, ast.Not):
+                neg, t = not neg, t.operand
+            if not isinstance(t, ast.Name) or neg == keep:
+                return False
+        return True
     ok = bool(aps)
     for e in aps:
+        if flag_form(e):
+            continue
         cmp_ = F.guard_compares(e.call, e.fn)
         ok = ok and any(op == 'Eq' and (
             has(l, 'FindResult', 'exclude_recursive') and has_call(
